@@ -51,9 +51,9 @@ class Builder:
         if k == "Circshift":
             return L.Circshift(list(a[0]), list(a[1]), axes=_seq_or_none(a[2]))
         if k == "Downsample":
-            return L.Downsample(list(a[0]), list(a[1]), shift=list(a[2]))
+            return L.Downsample(list(a[0]), list(a[1]), shift=list(a[2]) if any(a[2]) else None)      # a zero shift is the default: passed as None
         if k == "Upsample":
-            return L.Upsample(list(a[0]), list(a[1]), shift=list(a[2]))
+            return L.Upsample(list(a[0]), list(a[1]), shift=list(a[2]) if any(a[2]) else None)
         if k == "Sum":
             return L.Sum(list(a[0]), tuple(a[1]))
         if k == "Tile":
